@@ -24,6 +24,13 @@ CHECKS = {
              "J_Frozen (TLC) checks each recorded execution against the protocol. Coverage of the package's @builder methods is measured by "
              "introspection (a method without a label is a machinery failure).",
         ref="6/C01", technique="TLA+ heap model of copy/effect sharing (PT_Sharing) explored by TLC with measured tables; call trees replayed on the code; TLC trace judge (J_Frozen)"),
+    "C15": dict(
+        text="Same heap model and judge as C01 with the duplication actions enabled: PT_Sharing!Dup models copy.copy (shares what __copy__ does "
+             "not re-copy), deepcopy and pickle (everything fresh); TLC proves Frozen for the intended tables and enumerates every history "
+             "[dup, call] / [call, dup] over all labels of all 85 scenarios and the three mechanisms (thorough: [call, dup, call] on the rich seeds). "
+             "Each is executed on the real library; J_Frozen requires that duplication never raises, that the duplicate is observed exactly "
+             "like its original (6 contexts x inline/param + metadata), and that later calls on either side leave the other unchanged.",
+        ref="6/C15", technique="TLA+ heap model with Dup actions (PT_Sharing) as history generator; replay on the code; TLC trace judge (J_Frozen)"),
     "C05": dict(
         text="TLC proves on the specification that the intended string/identifier encoders round-trip through the reference lexer of every "
              "dialect, stand-alone and embedded, for all strings over a 20-class adversarial alphabet up to length 2 (quick) / 3 (thorough). "
